@@ -388,6 +388,73 @@ pub fn run(name: &str) -> Option<bool> {
             let cluster = crate::outcome::run(&p, &bytes(&["one", "-ab"]));
             split.is_value() && split != cluster
         }
+        // C03: input by name or by position, then OUT: `--input a b` accepted, `b --input a` not
+        "named_or_positional_choice_depends_on_order" => {
+            let o = OptSpec::plain(Spec::Seq(vec![
+                Spec::Alt(vec![arg(1, Names::long("input"), Ty::Str), pos(2, Ty::Str)]),
+                pos(3, Ty::Str),
+            ]));
+            let p = build_options(&o);
+            let a = crate::outcome::run(&p, &bytes(&["--input", "a", "b"]));
+            let b = crate::outcome::run(&p, &bytes(&["b", "--input", "a"]));
+            a.is_value() && !b.is_value()
+        }
+        // C03/C02: `construct!(--name N, P).many()`: `--name a --name b x y` fails, the word of the
+        // first round takes the detached value of the second `--name`
+        "word_inside_repeated_group_takes_detached_value" => {
+            let o = OptSpec::plain(Spec::Seq(vec![Spec::wrap(
+                W::Many { catch: false },
+                3,
+                Spec::Seq(vec![arg(1, Names::long("name"), Ty::Str), pos(2, Ty::Str)]),
+            )]));
+            let p = build_options(&o);
+            let a = crate::outcome::run(&p, &bytes(&["--name=a", "--name=b", "x", "y"]));
+            let b = crate::outcome::run(&p, &bytes(&["--name", "a", "--name", "b", "x", "y"]));
+            a.is_value() && !b.is_value()
+        }
+        // C15: fish / elvish output has no directive for a requested file completer
+        "fish_output_drops_requested_shell_completer"
+        | "elvish_output_drops_requested_shell_completer" => {
+            let rev = if name.starts_with("fish") { 9 } else { 1 };
+            let a = Spec::wrap(
+                W::Shell(ShellKind::File, String::new()),
+                2,
+                arg(1, Names::long("file"), Ty::Str),
+            );
+            let o = OptSpec::plain(Spec::Seq(vec![a]));
+            let p = build_options(&o);
+            let argv = bytes(&["--file", ""]);
+            let wants = match crate::props::comp::complete(&p, &argv, 0, None, 10_000_000) {
+                Outcome::Completion(text) => !crate::props::comp::parse_rev0(&text).ops.is_empty(),
+                _ => return None,
+            };
+            match crate::props::comp::complete(&p, &argv, rev, None, 10_000_000) {
+                Outcome::Completion(text) => wants && !text.to_lowercase().contains("file"),
+                _ => return None,
+            }
+        }
+        // C15: a one-line help of 150 columns came out as two lines in completion output
+        "long_help_line_breaks_completion_description" => {
+            let mut a = Item {
+                id: 1,
+                names: Names::long("alpha"),
+                help: Some("word ".repeat(30).trim_end().to_string()),
+                leaf: Leaf::Switch,
+            };
+            a.id = 1;
+            let b = Item {
+                id: 2,
+                names: Names::long("alpine"),
+                help: Some("short".to_string()),
+                leaf: Leaf::Switch,
+            };
+            let o = OptSpec::plain(Spec::Seq(vec![Spec::Item(a), Spec::Item(b)]));
+            let p = build_options(&o);
+            match crate::props::comp::complete(&p, &bytes(&["--al"]), 9, None, 10_000_000) {
+                Outcome::Completion(text) => text.lines().count() > 2,
+                _ => return None,
+            }
+        }
         // C06: `sleep [SECONDS]` as an adjacent command next to trailing words: `sleep 1.5 w0`
         // defaults SECONDS and hands `1.5` to the enclosing level
         "adjacent_command_defaulted_word_masks_invalid_value" => {
